@@ -15,7 +15,7 @@ for sid, r in res.items():
     m = json.load(open(p))
     m["confirmed_by_coordinator"] = {
         "cmd": "tools/confirmseeded.sh %s" % sid,
-        "result": "demo passes on clean tree; existing suite passes with patch; demo fails with patch" if r.get("confirmed") else "NOT CONFIRMED",
+        "result": ("demo passes on clean tree; existing suite passes with patch; demo fails with patch" if r.get("confirmed") else m.get("confirmed_by_coordinator", {}).get("result", "NOT CONFIRMED")),
         "check": "tools/runseeded.py %s -> %s (./check %s --tier quick)" % (sid, r.get("check"), m["property"])}
     json.dump(m, open(p, "w"), indent=1)
     print(sid, r)
